@@ -110,6 +110,10 @@ func (o *verifDownstream) HandleEventBatch(ctx context.Context, batch []*workerp
 // event time (C11).
 func Harness_C04_SourceRunner() {
 	verif.ExploreSelect(verif.Param("SELECT", 1) == 1)
+	if verif.Param("SCHED", 0) == 2 {
+		// every order of the runner's goroutines at synchronisation operations (bounded pre-emptions)
+		verif.ScheduleMode(2, verif.Param("PREEMPT", 1))
+	}
 	total := verif.Param("R", 3)
 	keys := [][]byte{[]byte("k1"), []byte("k2"), []byte("k3")}
 	keyer := &verifKeyer{keys: keys, keyOf: make([]int, total)}
@@ -503,4 +507,100 @@ func Harness_C04_RunnerRedeploy() {
 	if verif.Param("STALE", 1) == 1 { // not part of the routing property (C05 registration)
 		verif.AssertKnown(stale == 0, "no-record-of-the-previous-deployment-reaches-the-new-operators", "F31", true)
 	}
+}
+
+// verifSlowKeyer is the key-by stage with back-pressure: its first `hold` calls block until
+// the harness releases them.
+type verifSlowKeyer struct {
+	verifKeyer
+	hold    int
+	waiting int
+	gate    chan struct{}
+}
+
+func (h *verifSlowKeyer) KeyEventBatch(ctx context.Context, events [][]byte) ([][]*handlerpb.KeyedEvent, error) {
+	if h.hold > 0 {
+		h.hold--
+		h.waiting++
+		<-h.gate
+		h.waiting--
+	}
+	return h.verifKeyer.KeyEventBatch(ctx, events)
+}
+
+// Harness_C04_BarrierUnderBackPressure: the runner's loop is busy (the key-by call of an
+// earlier record is slow and the reorder buffer is full) while the source has more data and a
+// checkpoint is started; then the key-by call returns. Whatever the loop picks next - the
+// barrier or the next read - the barrier must cut the stream exactly at the position reported
+// for the checkpoint, and every record arrives once and in order.
+func Harness_C04_BarrierUnderBackPressure() {
+	verif.ExploreSelect(true)
+	total := verif.Param("R", 4)
+	keys := [][]byte{[]byte("k1")}
+	keyer := &verifSlowKeyer{verifKeyer: verifKeyer{keys: keys, keyOf: make([]int, total)}, hold: 1, gate: make(chan struct{})}
+	down := &verifDownstream{id: "o1"}
+	job := &verifSRJob{cursors: map[uint64]int{}}
+	reader := &verifReader{total: total, permits: make(chan int, 16)}
+	ctx, cancel := context.WithCancel(context.Background())
+	defer cancel()
+	sr := New(NewParams{Host: "h", UserHandler: keyer, Job: job, Clock: clocks.NewFrozenClock(),
+		OperatorFactory:     func(senderID string, node *jobpb.NodeIdentity) proto.Operator { return down },
+		SourceReaderFactory: func(*jobconfigpb.Source) connectors.SourceReader { return reader },
+		EventBatching:       batching.EventBatcherParams{MaxSize: 1, MaxDelay: 20 * time.Millisecond},
+	})
+	go sr.Start(ctx)
+	verif.Quiesce()
+	if err := sr.HandleDeploy(ctx, &workerpb.DeploySourceRunnerRequest{Operators: []*jobpb.NodeIdentity{{Id: "o1", Host: "h"}}, KeyGroupCount: 8, Sources: []*jobconfigpb.Source{{}}}); err != nil {
+		panic(err)
+	}
+	if err := sr.HandleAssignSplits([]*workerpb.SourceSplit{{SplitId: "only"}}); err != nil {
+		panic(err)
+	}
+	verif.Quiesce()
+	first := 1 + verif.Choose("first-read", 2)
+	reader.permits <- first // the key-by call of the first record blocks; with two records the loop blocks too
+	verif.Quiesce()
+	// while the loop is busy: more data is available at the source and a checkpoint is started
+	second := 1 + verif.Choose("second-read", total-first)
+	order := verif.Choose("what-comes-first", 2)
+	if order == 0 {
+		reader.permits <- second
+		verif.Quiesce()
+		sr.HandleStartCheckpoint(ctx, 1)
+	} else {
+		sr.HandleStartCheckpoint(ctx, 1)
+		verif.Quiesce()
+		reader.permits <- second
+	}
+	verif.Quiesce()
+	for keyer.waiting > 0 {
+		keyer.gate <- struct{}{}
+		verif.Quiesce()
+	}
+	reader.permits <- total
+	reader.permits <- 0
+	verif.Quiesce()
+	for i := 0; i < 4; i++ {
+		verif.FireTimers()
+		verif.Quiesce()
+	}
+	recs, last := 0, -1
+	sawBarrier := false
+	for _, ev := range down.stream {
+		switch t := ev.Event.(type) {
+		case *workerpb.Event_KeyedEvent:
+			rec := int(t.KeyedEvent.Value[0])
+			verif.Assert(rec == last+1, "records-once-and-in-split-order")
+			last = rec
+			recs++
+		case *workerpb.Event_CheckpointBarrier:
+			cur, ok := job.cursors[t.CheckpointBarrier.CheckpointId]
+			verif.Assert(ok, "cursor-reported-before-the-barrier-is-sent")
+			verif.Assert(recs == cur, "barrier-cuts-the-stream-exactly-at-the-reported-cursor")
+			sawBarrier = true
+		}
+	}
+	verif.Assert(sawBarrier, "barrier-forwarded")
+	verif.Assert(recs == total, "every-record-delivered-exactly-once")
+	verif.Reached()
 }
